@@ -281,6 +281,32 @@ def compare(col, pid, prog, cfg, args, sites, ref, res, log, rp, clauses, only=N
     return bad
 
 
+def seq_overlap(col, prog, log, rp):
+    """C05 on generated programs, judged by the GENERATOR's knowledge of which decorated functions are is_sequential
+    (the node objects tawazi rebuilt, e.g. when a DAG is expanded inside another one, are not trusted)."""
+    fns = all_fns(prog)
+    ivs = []
+    open_ = {}
+    for e in log:
+        if e["kind"] == "FENTER":
+            open_[(e["token"], e["node"])] = e
+        elif e["kind"] == "FEXIT":
+            b = open_.pop((e["token"], e["node"]), None)
+            if b is not None:
+                ivs.append((b["token"], b["node"], b["fn"], b["seq"], e["seq"]))
+    for (_t, _n), b in open_.items():
+        ivs.append((b["token"], b["node"], b["fn"], b["seq"], 1 << 60))
+    for (t, n, fn, a0, a1) in ivs:
+        if not fns.get(fn, {}).get("is_sequential"):
+            continue
+        col.counters["c05_sequential_probe_intervals"] += 1
+        for (t2, n2, fn2, b0, b1) in ivs:
+            if t2 == t and n2 != n and not (a1 < b0 or b1 < a0):
+                col.violation("C05", "sequential_function_overlapped_in_generated_program", dict(
+                    sequential=n, other=n2, seq_interval=(a0, a1), other_interval=(b0, b1), source="\n".join(G.all_sources(prog))), rp)
+                return
+
+
 def one_program(col, pid, rng, feats, depth, pidx, reps=3, clauses=True, flavours=None, only=None):
     g = G.Gen(rng, feats)
     prog = g.program(depth, "p%d" % pidx)
@@ -317,6 +343,7 @@ def one_program(col, pid, rng, feats, depth, pidx, reps=3, clauses=True, flavour
         col.evaluations += 1
         rp2 = dict(rp, args=jsonable(args), rep=rep, failing_function=failing)
         col.generic(log, rp2)
+        seq_overlap(col, prog, log, rp2)
         if failing is not None and ref[0] == "exc" and isinstance(ref[1], probes.Injected):
             # the plain function raises because a decorated function raised: so must the DAG call, whatever the resource
             col.counters["plain_python_raises_cases"] += 1
